@@ -4,6 +4,9 @@
 use crate::rng::Rng;
 
 pub const NAMES: [&str; 3] = ["a", "b", "c"];
+/// the same skeletons over names that are bound to builtin procedures in the global environment: a lexical
+/// binding must win over the builtin at every level
+pub const BUILTIN_NAMES: [&str; 3] = ["max", "vector", "string"];
 
 #[derive(Clone, Copy, PartialEq, Eq, Debug)]
 pub enum Kind {
@@ -38,11 +41,13 @@ pub struct Skeleton {
     /// how a level creates the closure of the next level: 0 = (let ((g (lambda ...))) ...),
     /// 1 = internal procedure-form definition (define (g formals...) ...) at the head of the body
     pub childform: usize,
+    /// the three variable names
+    pub names: [&'static str; 3],
 }
 
-fn formals(k: &[Kind; 3]) -> String {
-    let ps: Vec<&str> = (0..3).filter(|n| k[*n] == Kind::Param).map(|n| NAMES[n]).collect();
-    let r: Vec<&str> = (0..3).filter(|n| k[*n] == Kind::Rest).map(|n| NAMES[n]).collect();
+fn formals(k: &[Kind; 3], nm: &[&'static str; 3]) -> String {
+    let ps: Vec<&str> = (0..3).filter(|n| k[*n] == Kind::Param).map(|n| nm[n]).collect();
+    let r: Vec<&str> = (0..3).filter(|n| k[*n] == Kind::Rest).map(|n| nm[n]).collect();
     match (ps.is_empty(), r.first()) {
         (true, None) => "()".into(),
         (false, None) => format!("({})", ps.join(" ")),
@@ -66,18 +71,18 @@ fn args(k: &[Kind; 3], level: usize, site: usize) -> String {
     v.join(" ")
 }
 
-fn reads(level: usize, phase: &str) -> String {
-    (0..3).map(|n| format!("(note 'L{}-{}-{} {})", level, phase, NAMES[n], NAMES[n])).collect::<Vec<_>>().join(" ")
+fn reads(level: usize, phase: &str, nm: &[&'static str; 3]) -> String {
+    (0..3).map(|n| format!("(note 'L{}-{}-{} {})", level, phase, NAMES[n], nm[n])).collect::<Vec<_>>().join(" ")
 }
 
-fn assign(n: usize, level: usize, phase: &str) -> String {
-    format!("(set! {n} (list 'set{l}{p} {n}))", n = NAMES[n], l = level, p = phase)
+fn assign(n: usize, level: usize, phase: &str, nm: &[&'static str; 3]) -> String {
+    format!("(set! {n} (list 'set{l}{p} {n}))", n = nm[n], l = level, p = phase)
 }
 
 impl Skeleton {
-    fn define_formals(k: &[Kind; 3]) -> String {
+    fn define_formals(k: &[Kind; 3], nm: &[&'static str; 3]) -> String {
         // formals of (define (g . formals) ...): items after the procedure name
-        let f = formals(k);
+        let f = formals(k, nm);
         if f == "()" {
             "".into()
         } else if f.starts_with('(') {
@@ -94,37 +99,37 @@ impl Skeleton {
         let mut s = String::new();
         for n in 0..3 {
             if k[n] == Kind::Define {
-                s.push_str(&format!("(define {} (list 'd{} {})) ", NAMES[n], level, n));
+                s.push_str(&format!("(define {} (list 'd{} {})) ", self.names[n], level, n));
             }
         }
         let has_child = i + 1 < self.levels.len();
         if has_child && self.childform == 1 {
-            s.push_str(&format!("(define (g{}) {}) ", Self::define_formals(&self.levels[i + 1]), self.body(i + 1)));
+            s.push_str(&format!("(define (g{}) {}) ", Self::define_formals(&self.levels[i + 1], &self.names), self.body(i + 1)));
         }
-        s.push_str(&reads(level, "pre"));
+        s.push_str(&reads(level, "pre", &self.names));
         s.push(' ');
         if self.setv == 1 {
-            s.push_str(&assign(0, level, "pre"));
+            s.push_str(&assign(0, level, "pre", &self.names));
             s.push(' ');
         }
         if has_child {
             if self.childform == 0 {
-                s.push_str(&format!("(let ((g (lambda {} {}))) ", formals(&self.levels[i + 1]), self.body(i + 1)));
+                s.push_str(&format!("(let ((g (lambda {} {}))) ", formals(&self.levels[i + 1], &self.names), self.body(i + 1)));
             }
             if self.setv == 2 {
-                s.push_str(&assign(1, level, "post"));
+                s.push_str(&assign(1, level, "post", &self.names));
                 s.push(' ');
             }
             if self.setv == 3 {
                 for n in 0..3 {
-                    s.push_str(&assign(n, level, "post"));
+                    s.push_str(&assign(n, level, "post", &self.names));
                     s.push(' ');
                 }
             }
-            s.push_str(&reads(level, "mid"));
+            s.push_str(&reads(level, "mid", &self.names));
             // the closure is invoked inside its creator ...
             s.push_str(&format!(" (g {}) ", args(&self.levels[i + 1], level + 1, 1)));
-            s.push_str(&reads(level, "post"));
+            s.push_str(&reads(level, "post", &self.names));
             // ... and returned, to be invoked after the creator has returned
             s.push_str(" g");
             if self.childform == 0 {
@@ -132,16 +137,16 @@ impl Skeleton {
             }
         } else {
             // leaf: assign c, read again; repeated invocations see the previous assignment
-            s.push_str(&assign(2, level, "leaf"));
+            s.push_str(&assign(2, level, "leaf", &self.names));
             s.push(' ');
-            s.push_str(&reads(level, "post"));
+            s.push_str(&reads(level, "post", &self.names));
             s.push_str(" 'leaf");
         }
         s
     }
 
     fn lambda(&self, i: usize) -> String {
-        format!("(lambda {} {})", formals(&self.levels[i]), self.body(i))
+        format!("(lambda {} {})", formals(&self.levels[i], &self.names), self.body(i))
     }
 
     pub fn forms(&self) -> Vec<String> {
@@ -149,9 +154,9 @@ impl Skeleton {
         let mut f = vec![
             "(define log '())".to_string(),
             "(define (note tag v) (set! log (cons (list tag v) log)) v)".to_string(),
-            "(define a 'ga)".to_string(),
-            "(define b 'gb)".to_string(),
-            "(define c 'gc)".to_string(),
+            format!("(define {} 'ga)", self.names[0]),
+            format!("(define {} 'gb)", self.names[1]),
+            format!("(define {} 'gc)", self.names[2]),
             format!("(define f1 {})", self.lambda(0)),
         ];
         if l == 1 {
@@ -179,7 +184,7 @@ impl Skeleton {
                 }
             }
         }
-        f.push("(list a b c)".to_string());
+        f.push(format!("(list {} {} {})", self.names[0], self.names[1], self.names[2]));
         f.push("(reverse log)".to_string());
         f
     }
@@ -199,7 +204,7 @@ impl Skeleton {
                     .collect::<String>()
             })
             .collect();
-        format!("{}/set{}/child{}", lv.join("-"), self.setv, self.childform)
+        format!("{}/set{}/child{}{}", lv.join("-"), self.setv, self.childform, if self.names[0] == "a" { "" } else { "/builtin-names" })
     }
 }
 
@@ -221,11 +226,15 @@ pub fn nth(l: usize, idx: usize) -> Skeleton {
         levels.push(lk[i % 54]);
         i /= 54;
     }
-    Skeleton { levels, setv, childform }
+    Skeleton { levels, setv, childform, names: NAMES }
 }
 
 pub fn random(l: usize, rng: &mut Rng) -> Skeleton {
-    nth(l, rng.below(space(l)))
+    let mut sk = nth(l, rng.below(space(l)));
+    if rng.below(4) == 0 {
+        sk.names = BUILTIN_NAMES;
+    }
+    sk
 }
 
 /// Closures created in loops: each iteration is a separate activation of the loop variable.
